@@ -230,6 +230,75 @@ CLAIMED = {
              "(complex64 linearity tolerance 2e-4 = 1e3 x observed rounding; complex128 1e-10).",
         technique="Lean 4 proof (sound no-mutation analysis, kernel-evaluated per function on translator-generated IR) + runtime validation",
         design="DESIGN.md §3 C02, §9"),
+    "C12": dict(
+        text="Lean 4 theorems about a line-by-line transcription of ConjugateGradient (init/update/done/run generic over a record of "
+             "vector-space operations; executed over Gaussian rationals by the driver, reasoned about in an RCLike inner-product "
+             "space) for Hermitian positive-definite A and optional Hermitian PD preconditioner P, by induction on the number of "
+             "updates: cg_residual (r_k = b - A x_k while residual updates are performed), cg_orth / cg_conj (full orthogonality and "
+             "conjugacy), cg_krylov / cg_krylov_eq (x_k - x_0 in K_k(PA, P r_0), directions span it), cg_optimal and cg_optimal_last "
+             "(A-norm optimal over x_0 + K_k, incl. the final iterate where the code skips the residual update), cg_monotone, "
+             "cg_finite (r_n = 0 in dimension n), cg_breakdown / npd_sticky / cg_breakdown_converged (pAp <= 0: state unchanged, flag "
+             "set and sticky, done), cg_early_stop_fixed, alias_branch_unreachable (p aliasing z when max_iter = 1 is unobservable), "
+             "cg_x_maxiter_irrelevant, cg_real_inner, resid2_eq_rzold, iter_counts_updates. Tie: the REAL class executed over exact "
+             "Gaussian rationals (dtype=object arrays of an exact scalar class) and compared field by field as equal fractions with "
+             "the Lean driver after __init__ and after every update (PD / singular / indefinite matrices, n = 1..8, with and without "
+             "P, A as Linop and as function, max_iter in {0,1,2,n,n+1,n+2}), plus a float run at 1e-9.",
+        note="Trusted: Lean kernel; hand transcription of the class tied by the exact correspondence (no translator for the update "
+             "body); IEEE rounding not modelled (float Krylov-optimality demanded at 1e-4 for P none/diagonal only; dense P in float "
+             "drifts up to 5e-4 and is judged on the exact run).",
+        technique="Lean 4 proof (CG invariants and Krylov optimality by induction) + exact-rational execution of the real class",
+        design="DESIGN.md §3 C12, §9"),
+    "C13": dict(
+        text="Lean 4 theorems about the update formulas the translator extracts from GradientMethod._update and "
+             "PrimalDualHybridGradient._update (Gen/C13.lean, one generic model executed over rationals and reasoned about over real "
+             "inner-product spaces, prox given by its variational characterisation, f convex with the descent lemma): "
+             "gmStep_x_isProx, ista_step_ineq, ista_descent (F never increases for alpha <= 1/L), ista_rate "
+             "(F(x_k)-F(w) <= ||x_0-w||^2/(2 alpha k)), t_rule_ok / t_rule_growth, fista_lyapunov, fista_invariants, fista_rate (full "
+             "rate 2||x_0-w||^2/(alpha (k+2)^2)), pdhg_fixed_point_iff_saddle (any tau, sigma > 0, any gamma), pdhg_fejer and "
+             "pdhg_fejer_monotone (constant scalar steps, theta = 1, tau sigma ||A||^2 <= 1: the coupled distance on the pair the "
+             "algorithm couples never increases), pdhg_accel_steps_primal/dual and pdhg_accel_run_primal (theta = 1/sqrt(1+2 gamma "
+             "step), tau sigma invariant, min tracked along the whole run). Tie: translator (statement census, order and branch "
+             "conditions pinned) + the REAL classes stepped over exact rationals (sqrt values logged and checked at 1e-15) and "
+             "compared after every update, float stream for l1, identity of the caller's arrays.",
+        note="Trusted: Lean kernel; translator gen_c13; NOT proved: convergence of the PDHG iterates to the minimiser (with or without "
+             "acceleration) and Fejer monotonicity for array-valued steps - decided by the search oracle on planted-solution "
+             "instances (incl. Nesterov's tridiagonal); __init__ values, in-place updates, resid and floating point are tied by "
+             "correspondence only.",
+        technique="Lean 4 proof (ISTA/FISTA rates, PDHG saddle fixed points and Fejer monotonicity) over translator-generated updates",
+        design="DESIGN.md §3 C13, §9"),
+    "C15": dict(
+        text="Lean 4 theorems about definitions the translator regenerates from alg.py / app.py (Gen/AlgDone.lean: Alg counter init "
+             "and increment, per-class self-increments, every _done expression of the 11 Alg classes, updates per App.run pass): "
+             "loop_bound and loop_bound_<Class> (from iter = 0 the canonical loop performs at most max_iter updates and iter equals "
+             "the update count), ctr_iterate, iter_counts_updates, self_incr_zero, app_one_update_per_pass; early_stop_fixed_gm / "
+             "_gm_accel / _pdhg / _newton and C12.cg_early_stop_fixed (with tol = 0, done() before max_iter implies the next update "
+             "leaves the solution unchanged - for the repaired residuals), pdhg_primal_only_not_fixed / gm_accel_x_only_not_fixed "
+             "(exact rational witnesses that the pinned residuals did NOT have the property); power_monotone, power_normalised, "
+             "power_le_bound. Tie: translator + counter/done traces of 9 classes and App.run under random done()/update() "
+             "interleavings up to max_iter+2, PDHG / GradientMethod stepped against the Lean transcription.",
+        note="Trusted: Lean kernel; translator gen_c15; PDHG step-size adaptation (gamma > 0), array-valued steps, Newton line search "
+             "and SDMM traces are not modelled (search oracle only); power_le_bound takes an operator bound L (lambda_max = ||A|| is "
+             "checked numerically); the extra-update comparison for GerchbergSaxton uses 1e-10 (its least-squares re-solve "
+             "reproduces the fixed point to 1 ulp only).",
+        technique="Lean 4 proof (loop bound over translator-generated done/counter logic, fixed-point theorems) + trace correspondence",
+        design="DESIGN.md §3 C15, §9"),
+    "C18": dict(
+        text="Lean 4 theorems about definitions the translator regenerates from mri/samp.py (Gen/Samp.lean: calibration slice "
+             "bounds, radius fields, every comparison/update/break of the bisection, crop test, accept test, mask writes, structural "
+             "flags such as get_state/set_state placement and '=' vs '+='): structure_ok, calib_block_bounds / calib_block_size, "
+             "mask_binary / mask_monotone / calib_ones / active_list_inv (every reachable sampler state, any radii and draw stream), "
+             "crop_keeps_calib (c + 2 <= n), crop_loses_calib_iff (exact class of the known finding) with crop_counterexample_16_15, "
+             "crop_outside_zero, crop_binary, returned_within_tol (a returned mask meets |size/sum - accel| < tol, for any sampler "
+             "and midpoint function), raise_iff, never_unbound, bisection_direction, stall_exits / interval_shrinks / terminates "
+             "(over any finite grid containing the midpoints the repaired loop terminates), deterministic, global_rng_frame(_private). "
+             "Tie: translator + exact streams: real numba calibration fill vs generated bounds, _poisson.py_func on scripted draws "
+             "vs the Lean sampler machine, bisection traces of real poisson calls vs the Lean loop, r < 1 field vs exact r^2 < 1.",
+        note="KNOWN FINDING C18:crop_corner:calib-touches-edge (recorded, not repaired). Trusted: Lean kernel; translator gen_c18; NOT "
+             "proved: that float64 (a+b)/2 lies in [a, b] (IEEE; checked on every real trace), numba's private RNG bit-for-bit, float "
+             "geometry of candidate points; c = n excluded (r is 0/0); watchdog turns a hang into a violation, slow-but-progressing "
+             "calls are inconclusive.",
+        technique="Lean 4 proof (sampler and bisection state machines over translator-generated definitions) + trace correspondence",
+        design="DESIGN.md §3 C18, §9"),
 }
 NOT_YET = "check not built yet in this round (framework exists; see DESIGN.md §8 build order)"
 
